@@ -32,7 +32,9 @@ class LList(LObj):
 
     def __init__(self, items):
         self.items = items
-        self.cap = len(items)  # capacity of the vm's vector, to know when it has to grow
+        # capacity of the vm's vector, to know when it has to grow (a list literal of n elements has room for
+        # max(n, 4), measured on the tree; lists built by natives may differ: the count is only used for labels)
+        self.cap = max(len(items), 4)
 
 
 class LTuple(LObj):
